@@ -73,6 +73,8 @@ func vInstallSnapshot(w int, faults bool) {
 	if req.Term < pre.term {
 		vCover("install.stale-term")
 		vAssert(!resp.Success && vSameState(pre, post) && nRestore == 0 && len(env.snaps.calls) == 0, "C01.install.stale-term-frame")
+		// a request of a superseded term never becomes the leader hint
+		vAssert(post.leaderAddr == pre.leaderAddr && post.leaderID == pre.leaderID && post.term == pre.term, "C18.install.stale-term-keeps-leader-hint")
 		vReach("install.end")
 		return
 	}
